@@ -52,7 +52,8 @@ class P(Play):
         again = prov in ctx.interp.providers
         if prov not in ctx.H.objs:
             return
-        self.attach(ctx, prov)
+        self.attach(ctx, prov, step.get("via", "listener"))
+        self.labels.add("attach-via:" + step.get("via", "listener"))
         self.labels.add("attach:" + ("again" if again else "first") + (":late" if prov.startswith("late") else ":ctor"))
         if again:
             self.nontrivial = True
@@ -130,10 +131,11 @@ def cases(draw, tier):
     have_sib = False
     for step in draw(gen.history(spec, max_steps=8 if tier == "quick" else 14)):
         r = draw(st.integers(0, 9))
+        via = draw(st.sampled_from(["listener", "listener", "observer", "with-bystander"]))
         if r < 3 and pending:
-            hist.append({"op": "attach", "prov": pending.pop(0)})
+            hist.append({"op": "attach", "prov": pending.pop(0), "via": via})
         elif r < 5:
-            hist.append({"op": "attach", "prov": draw(st.sampled_from([p for p in provs if p not in ("machine", "model")] or ["l0"])), "again": True})
+            hist.append({"op": "attach", "prov": draw(st.sampled_from([p for p in provs if p not in ("machine", "model")] or ["l0"])), "again": True, "via": via})
         elif r < 6 and not have_sib:
             hist.append({"op": "sibling"})
             have_sib = True
